@@ -416,7 +416,7 @@ def rule_d(ctx):
     present = [f["name"] for f in psi["variants"][0]["fields"]]
     ctx.check(sorted(present) == sorted(flags), "C09-D", "PushedStyleInfo:fields", psi["span"], "PushedStyleInfo",
               "flags: %s" % present)
-    css = ctx.config != "default" and any("colour" == f["name"] for f in F.adt("ComputedStyle")["variants"][0]["fields"])
+    css = ctx.has_css and any("colour" == f["name"] for f in F.adt("ComputedStyle")["variants"][0]["fields"])
     order_push, order_pop = {}, {}
     for f, (pu, po) in flags.items():
         if f in ("colour", "bgcolour") and not css:
